@@ -125,6 +125,7 @@ Eval(e, h, c, cx) ==
                         ELSE [ok |-> TRUE, v |-> v, class |-> ""]
     [] e.k = "ctx"   -> [ok |-> TRUE, v |-> cx, class |-> ""]
     [] e.k = "fail"  -> [ok |-> FALSE, v |-> Nil, class |-> "func"]
+    [] e.k = "err"   -> [ok |-> FALSE, v |-> Nil, class |-> e.a]      \* an expression failing with class e.a
     [] e.k = "isset" -> LET v == Resolve(h, c, e.a) IN
                         [ok |-> TRUE, v |-> IF v \in {Unset, Nil} THEN "false" ELSE "true", class |-> ""]
     [] e.k = "none"  -> [ok |-> TRUE, v |-> Nil, class |-> ""]
@@ -269,8 +270,8 @@ DoRange(s) ==
       bad   == coll.k # "list" \/ coll.a \in {"nil", "bad"}
       ns    == IF isLet THEN NewScope(heap, cur) ELSE [heap |-> heap, cur |-> cur]
       two   == s.f = "kv"
-  IN IF coll.k = "fail"
-     THEN Raise("func", s.id) /\ UNCHANGED <<frames, heap, cur, ctx, contents, content, bufs, writer, out, rv>>
+  IN IF coll.k \in {"fail", "err"}
+     THEN Raise(IF coll.k = "fail" THEN "func" ELSE coll.a, s.id) /\ UNCHANGED <<frames, heap, cur, ctx, contents, content, bufs, writer, out, rv>>
      ELSE IF bad \/ (two /\ ~ProvidesIndex(coll.a))
      THEN /\ Raise("range", s.id) /\ heap' = ns.heap /\ cur' = ns.cur
           /\ UNCHANGED <<frames, ctx, contents, content, bufs, writer, out, rv>>
